@@ -87,8 +87,28 @@ class Elaborator:
         tops: List[Elaboratable] = top if isinstance(top, List) else [top]
 
         # Pass `tops` through each of our passes, in order
-        for elabpass in self.passes:
-            tops = elabpass.elaborate(tops=tops)
+        caches = [elabpass.CLASS_LEVEL_CACHE for elabpass in self.passes]
+        starts = [len(cache.completed) for cache in caches]
+        try:
+            for elabpass in self.passes:
+                tops = elabpass.elaborate(tops=tops)
+        except Exception:
+            # Modules visited before the failure are part-way through our passes, which will not visit them again.
+            # Complete each which can be completed, so that none remains editable while only some passes would see the edits.
+            # (Those depending on the failing Module fail again, and are remembered as such.)
+            visited = {
+                id(m): m
+                for cache, start in zip(caches, starts)
+                for m in cache.completed[start:]
+                if m._elaborated is None and not any(m in c.failed for c in caches)
+            }
+            for module in visited.values():
+                try:
+                    for elabpass in self.passes:
+                        elabpass.elaborate(tops=[module])
+                except Exception:
+                    pass
+            raise
 
         # Extract the single-element case
         if not isinstance(top, List):
